@@ -88,7 +88,7 @@ private:
     }
 
     void _dft(const cmplx_t* restrict x, cmplx_t* restrict y, int n) const {
-        assert(n == n_);
+        DSPLIB_ASSERT(n == n_, "input size must be equal FFT size");
 
         if (n == 3) {
             _dft_n3(x, y);
